@@ -30,12 +30,12 @@ def _write_cfg(ctx, name, consts, tail):
 
 
 def _consts(nids=3, naddrs=3, filt=(), defect=True, maxlen=2, bad=False, dup=False, depth=2, sim=False, mixed=True,
-            burst=0, ordered=True, split=False, c0peer="a0", late=False, schema=False, overlap=False, control=False):
+            burst=0, ordered=True, split=False, c0peer="a0", late=False, schema=False, overlap=False, control=False, retry=False):
     b = lambda x: "TRUE" if x else "FALSE"
     return collections.OrderedDict(
         Ids=_tla_set("i%d" % k for k in range(1, nids + 1)), Addrs=_tla_set("a%d" % k for k in range(1, naddrs + 1)),
         Filt=_tla_set(filt), DefectByAddr=b(defect), C0peer='"%s"' % c0peer, MaxLen=maxlen,
-        WithBad=b(bad), WithDup=b(dup), WithSplit=b(split), LateEvents=b(late), SchemaPlan=b(schema), Overlap=b(overlap), ControlPlan=b(control), GenDepth=depth,
+        WithBad=b(bad), WithDup=b(dup), WithSplit=b(split), LateEvents=b(late), SchemaPlan=b(schema), Overlap=b(overlap), ControlPlan=b(control), RetryPlan=b(retry), GenDepth=depth,
         Sim=b(sim), Mixed=b(mixed), Burst=burst, Ordered=b(ordered))
 
 
@@ -261,6 +261,9 @@ def _after_model(ctx, quick, rnd, binary, defect, runs):
     # control node lost, answers again, a refresh before the session has reconnected (has to return), reconnection
     jobs.append(("control-5", dict(), lambda: _gen(
         ctx, "gen_control5.cfg", _consts(defect=defect, depth=5, maxlen=2, control=True), workers=2)[0]))
+    # a node that does not answer is reported DOWN, then UP (retried in vain), then the cluster changes
+    jobs.append(("retry-5", dict(c0peer="a0"), lambda: _gen(
+        ctx, "gen_retry5.cfg", _consts(defect=defect, depth=5, maxlen=2, split=True, retry=True), workers=2)[0]))
     if not quick:
         jobs.append(("split-mixed-2", dict(c0peer="b0"), lambda: _gen(
             ctx, "gen_split2.cfg", _consts(defect=defect, depth=2, mixed=True, maxlen=1, split=True, c0peer="b0"), workers=2)[0]))
